@@ -465,6 +465,19 @@ def clear_degree_cache() -> None:
 # =============================================================================
 
 
+def _constant_value(expr: Expression) -> float | None:
+    """Value of a variable-free factor, or None if ``expr`` is not constant.
+
+    A literal ``Constant`` is the common case; a constant *sub-expression*
+    such as ``Constant(2) + 3`` (polynomial degree 0) is evaluated once.
+    """
+    if isinstance(expr, Constant):
+        return float(expr.value)
+    if expr.degree == 0:
+        return float(expr.evaluate({}))
+    return None
+
+
 def extract_linear_coefficient(expr: Expression, var: Variable) -> float:
     """Extract the linear coefficient for a variable from an expression.
 
@@ -551,16 +564,12 @@ def _extract_coefficient_impl(expr: Expression, var: Variable) -> float:
 
         if expr.op == "*":
             # One side must be constant for linear expressions
-            if isinstance(expr.left, Constant):
-                return float(expr.left.value) * _extract_coefficient_impl(
-                    expr.right, var
-                )
-            if isinstance(expr.right, Constant):
-                return _extract_coefficient_impl(expr.left, var) * float(
-                    expr.right.value
-                )
-            # For linear expressions, at least one side must be constant
-            # This fallback handles edge cases where constants are nested
+            left_const = _constant_value(expr.left)
+            if left_const is not None:
+                return left_const * _extract_coefficient_impl(expr.right, var)
+            right_const = _constant_value(expr.right)
+            if right_const is not None:
+                return _extract_coefficient_impl(expr.left, var) * right_const
             return 0.0
 
         if expr.op == "/":
@@ -628,9 +637,18 @@ def _extract_constant_impl(expr: Expression) -> float:
     if isinstance(expr, Variable):
         return 0.0
 
-    # Vector expressions have no constant term (purely linear)
+    # Vector reductions over variables have no constant term; over vector
+    # expressions (c @ (x + 1)) the elements' constants are combined
     if isinstance(expr, (LinearCombination, VectorSum)):
-        return 0.0
+        elements = getattr(expr.vector, "_expressions", None)
+        if elements is None:
+            return 0.0
+        if isinstance(expr, LinearCombination):
+            return sum(
+                float(expr.coefficients[i]) * _extract_constant_impl(elem)
+                for i, elem in enumerate(elements)
+            )
+        return sum(_extract_constant_impl(elem) for elem in elements)
 
     if isinstance(expr, BinaryOp):
         if expr.op == "+":
@@ -645,10 +663,12 @@ def _extract_constant_impl(expr: Expression) -> float:
 
         if expr.op == "*":
             # c * expr or expr * c
-            if isinstance(expr.left, Constant):
-                return float(expr.left.value) * _extract_constant_impl(expr.right)
-            if isinstance(expr.right, Constant):
-                return _extract_constant_impl(expr.left) * float(expr.right.value)
+            left_const = _constant_value(expr.left)
+            if left_const is not None:
+                return left_const * _extract_constant_impl(expr.right)
+            right_const = _constant_value(expr.right)
+            if right_const is not None:
+                return _extract_constant_impl(expr.left) * right_const
             return 0.0
 
         if expr.op == "/":
@@ -661,6 +681,8 @@ def _extract_constant_impl(expr: Expression) -> float:
                 exp = int(expr.right.value)
                 if exp == 0:
                     return 1.0  # x**0 = 1
+                if exp == 1:
+                    return _extract_constant_impl(expr.left)  # (x + 5)**1
             return 0.0
 
     if isinstance(expr, UnaryOp):
@@ -889,14 +911,16 @@ def _extract_all_coefficients_impl(
 
         if expr.op == "*":
             # One side must be constant for linear expressions
-            if isinstance(expr.left, Constant):
+            left_const = _constant_value(expr.left)
+            if left_const is not None:
                 _extract_all_coefficients_impl(
-                    expr.right, var_index, result, multiplier * float(expr.left.value)
+                    expr.right, var_index, result, multiplier * left_const
                 )
                 return
-            if isinstance(expr.right, Constant):
+            right_const = _constant_value(expr.right)
+            if right_const is not None:
                 _extract_all_coefficients_impl(
-                    expr.left, var_index, result, multiplier * float(expr.right.value)
+                    expr.left, var_index, result, multiplier * right_const
                 )
                 return
             # Both sides non-constant - no linear contribution
